@@ -310,7 +310,7 @@ def gen_cases(rng, n, tier):
     cases = []
     # exhaustive single operations on small polylines (insertions at every position, every roll amount)
     ex = _exhaustive_inserts(3, 2 if tier == "quick" else 3)
-    step = 12
+    step = 4
     for s in range(0, len(ex), step):
         chunk = ex[s:s + step]
         ops = [{"op": "new", "v": v, "closed": (s + j) % 2 == 0} for j, (v, idx) in enumerate(chunk)]
